@@ -628,3 +628,21 @@ PROPS["C02"]["explanation"] += (" Conformance theorems against the independent r
 PROPS["C02"]["level_text"] = ("Partial proof: shape of every successful run (listed symbol, exact length, standard padding reached in ASCII mode) for all plans; conformance against the independent reference decoder as theorems for the pure ASCII and pure Base 256 plans"
     " incl. FNC1 / Macro headers, all length-field forms and padding (spec_ascii_roundtrip, spec_b256_roundtrip); for the other modes and mixed plans the reference decoder is the oracle on every stream of the sweep, and the encoder model is tied to the code by correspondence on real and injected plans.")
 PROPS["C02"]["unproved"] = ["spec_roundtrip for C40 / Text / X12 / EDIFACT segments and mixed plans against the reference decoder (proved against the crate's decoder model: mixed_roundtrip_E)"]
+
+# C02: per-mode conformance against the reference decoder + the mixed-plan frame; C10: what is true / false about plain ASCII
+PROPS["C02"]["lean"] = list(PROPS["C02"]["lean"]) + ["DM.Props.C02SpecX12", "DM.Props.C02SpecEdi", "DM.Props.C02SpecC40", "DM.Props.C02SpecMixed"]
+PROPS["C02"]["explanation"] += (" Per-mode theorems against the reference decoder (DM/Props/C02SpecX12, C02SpecEdi, C02SpecC40; toolkits DM/Lemmas/SpecX12(+Gen), SpecEdi(+Gen), SpecC40(+Enc)): spec_x12_roundtrip (+_header, _all: all three end-of-data forms),"
+    " spec_edifact_roundtrip (+_header, _all: UNLATCH value in every slot, ASCII end game, exact fit), spec_c40_roundtrip / spec_text_roundtrip (all five forms of handle_end; the 640-case agreement of the crate's and the standard's C40/Text value automata, values_agree) -"
+    " for the pure plan of each mode, every message the encoder accepts and every symbol list, the reference decoder accepts the stream and returns the message, with the latch, the per-byte mode trace and the padding position stated exactly;"
+    " x12Encode_specGen and edifactEncode_specGen / gEnd_seg hold under arbitrary plans. Mixed plans (DM/Lemmas/SpecMain.lean, DM/Props/C02SpecMixed.lean): the main-loop invariant SMI against the reference decoder, the interface ModeStep, step_ascii and step_b256 for arbitrary plans,"
+    " spec_frame (any plan, given ModeStep for the modes it uses) and spec_mixed_roundtrip - every plan over ASCII and Base 256, no side condition, behind no header / FNC1 / Macro 05 / Macro 06: the reference decoder accepts the stream and returns the message.")
+PROPS["C02"]["level_text"] = ("Partial proof: shape of every successful run (listed symbol, exact length, standard padding reached in ASCII mode) for all plans; conformance against the independent reference decoder as theorems for the pure plan of each of the six modes"
+    " (every end-of-data form, FNC1 / Macro headers for ASCII, Base 256, X12, EDIFACT) and for every mixed plan over ASCII and Base 256; for mixed plans that use the other modes the reference decoder is the oracle on every stream of the sweep"
+    " (the frame spec_frame takes their per-mode step as hypothesis), and the encoder model is tied to the code by correspondence on real and injected plans.")
+PROPS["C02"]["unproved"] = ["ModeStep for X12 / EDIFACT / C40 / Text inside mixed plans against the reference decoder (proved against the crate's decoder model: mixed_roundtrip_E)"]
+PROPS["C10"]["lean"] = list(PROPS["C10"]["lean"]) + ["DM.Props.C10Ascii"]
+PROPS["C10"]["explanation"] += (" DM/Props/C10Ascii.lean (helpers DM/Lemmas/C10Live, C10Pot, C10Prune, C10AB, C10Succ, C10Plan): plan_exists - with ASCII enabled the planner model always returns a plan (every mode set, every input, every sort order);"
+    " ascii_only_cost, never_worse_than_ascii_ab - with only ASCII, or only ASCII and Base 256 enabled, the predicted cost is at most (for ASCII alone: exactly) the plain ASCII size, and with the coupling theorem the encoder model never refuses what plain ASCII fits and never uses a larger symbol"
+    " (ascii_only_symbol, never_larger_symbol_ab); ascii_bound_false / refuted_cost / refuted_symbol - kernel-checked: with C40 or Text enabled the bound is false on the models (known finding K-D, replayed on the crate).")
+PROPS["C10"]["level_text"] = ("Exploration with a witness-producing oracle whose soundness is a theorem; planner optimality does not hold (known findings K-A, K-B*, K-C*, K-D*); what is proved about the planner model: a plan is always returned when ASCII is enabled, and for mode sets within {ASCII, Base 256}"
+    " the chosen symbol is never larger than plain ASCII needs (with the coupling theorem); that the same clause fails with C40 / Text enabled is a kernel-checked counterexample and a known finding.")
